@@ -37,12 +37,9 @@ def run(ctx):
             ctx.check(any(entry_part(which)(p) for p in parts), "COVER", enc.key, "encoded-list-depends-on:" + name,
                       "the encoded commitment list no longer depends on every entry's %s" % name, enc.loc)
         # H1 is applied to exactly that preimage
-        vc = FnView.get(P, cbl)
-        for s in [s for (b, k, rv) in ret_writes(cbl) if k == "ok" for s in subterms(vc.cx.operand(rv["ops"][0])) if s[0] == "closure"]:
-            cf = P.fns.get(s[1])
-            ct = TermCx(P, cf).local(0) if cf else ("unknown", "")
-            ctx.check(mentions(ct, lambda u: is_call(u, name="H1") and u[2][0] == ("field", ("arg", 2), None, "1")), "COVER", cbl.key,
-                      "H1(whole-preimage)", "the binding factor must be H1 of the complete per-signer preimage", cbl.loc)
+        from .c01 import rho_is_h1_of_preimage
+        ctx.check(rho_is_h1_of_preimage(P, cbl), "COVER", cbl.key,
+                  "H1(whole-preimage)", "the binding factor must be H1 of the complete per-signer preimage", cbl.loc)
     ch = P.fns.get(CORE + "challenge")
     if ch:
         v = FnView.get(P, ch)
